@@ -19,6 +19,10 @@ CHECKS = {
             "Whole-stack runs (real client library, real server, real quinn/rustls over SimNet, paused clock) with a configuration swarm per run: codec x compression algorithm/level x batching (size, interval) x send pattern (send, feed+flush, feed then finish only, send_all) x virtual gaps x message counts around the batch size x payload classes, under mild loss/duplication/reordering. Every subscriber registered before the first send must yield exactly the accepted items in order; finish() returning Ok obliges delivery of everything accepted, including a partial batch.",
             "Runs with a lost connection are inconclusive; registration counts as effective 1 virtual second after open(); batches that would exceed the frame limit are not generated.",
             "DESIGN.md §5 C03"),
+    "C04": ("exploration", "N", "deterministic simulation: real Requestor streams and clones against a scripted raw replier over the simulated network, reply attribution and timeout timing on the virtual clock",
+            "1-3 library requestor streams (shared or separate connections), cloned 1-4 times, issue 1-30 concurrent request() calls with unique payloads; a raw replier peer (or the library Replier with handler delays) answers per script: now, delayed, out of order, after the timeout, never, twice. Every Ok must carry the reply to exactly that call's request and not precede the reply's emission; a missing or late reply must surface as the timeout error no earlier than the configured timeout and no later than timeout + 1 s (virtual); late and duplicate replies must never satisfy another call.",
+            "A reply scripted well inside the timeout is demanded only on a loss-free network; runs with a lost connection are inconclusive.",
+            "DESIGN.md §5 C04"),
     "C05": ("exploration", "W", "deterministic simulation: real MessageCodec under FramedRead/FramedWrite over a scripted byte pipe (short writes, pending, seeded chunking)",
             "Frame sequences of all eight kinds cross a simulated byte pipe whose every write and read outcome is scripted (short writes, Pending, 1-byte chunks, cuts inside the length prefix, several frames per chunk); the decoded sequence must equal the written one, all bytes must be consumed, each prefix must equal a payload length computed independently from bincode's layout, oversize payloads/prefixes must be refused (the latter as soon as the 9 header bytes are in, with no payload buffered), batches must unbatch to the same messages.",
             "Sampling over frames/chunkings, not proof; payload sizes near 1 MiB are rare (1-2 % of runs).",
@@ -43,6 +47,14 @@ CHECKS = {
             "Requestors and repliers additionally send every other frame kind mid-stream (Ok, BatchMessage, Error, Register*, frame-limit requests); the router must not panic or spin and every non-hostile peer's traffic must still satisfy the C02 model. The stream-open half of the property (Ok/Error answer, role mismatch) needs the N-engine and is not covered yet.",
             "R part only: frames arrive decoded; first-frame handling in server.rs is not exercised by this check yet.",
             "DESIGN.md §5 C11"),
+    "C12": ("fault_enumeration", "N", "deterministic simulation with fault injection: connection close hook, partitions held for an exact number of failed attempts, server restarts, repeated beyond the retry budget",
+            "A victim stream of each kind (publisher, subscriber, requestor, replier; real library code) carries continuous traffic with a helper counterpart while outages are injected: the H1 close hook, a partition that the harness heals exactly when attempt k+1 is announced (k = 0..max_attempts+1), a server restart (nothing survives). Attempts must be numbered from 1 after every loss the client reports; an outage within the budget must end in a stable recovery after which newly started traffic is delivered/answered; an outage that exhausts the budget must surface as too-many-retries instead of hanging; more outages than max_attempts are survived when each stays within the budget.",
+            "Traffic during an outage is not owed; the replier is granted one spare attempt (stale binding on the server), restarts are judged only with >= 3 attempts; the unrecoverable-error clause (non-bind error code on re-registration) is not exercised yet.",
+            "DESIGN.md §5 C12"),
+    "C13": ("exploration", "N", "deterministic simulation: reconnect attempt times measured on the virtual clock during a partition held for the whole schedule",
+            "The backoff iterator is pure; what a user relies on is when the retries happen. A library stream with a generated strategy (constant / linear / exponential with factors 0..u64::MAX, steps 0..10^9 s, 0-300 attempts, optional cap) is partitioned for its whole schedule; every reconnect_attempt event and the exhaustion report are timestamped on the virtual clock and compared with the law computed in u128 with saturation; numbering 1..max, exact count, clamp to the cap, no panic of the reconnecting task (overflow panics surface with their source location).",
+            "A failed connect costs quinn's 10 s handshake timeout, subtracted from each gap (tolerance -50/+1500 ms); schedules beyond the 2*10^5 s horizon are judged on the attempts observed.",
+            "DESIGN.md §5 C13"),
     "C14": ("exploration", "N", "deterministic simulation: transform configurations exercised as traffic through the simulated system, plus raw-peer injection of invalid payloads",
             "8-24 publisher/subscriber stream pairs per run, each with its own codec and compression algorithm/mode/level (every explicit level of the supported ranges is drawn) and payloads from the classes empty / 1 byte / incompressible / repetitive / structured / (thorough) near the frame limit, with and without batching, so the wire composition encode -> batch -> compress -> decompress -> unbatch -> decode runs; every received value must equal the sent one in order. A raw publisher injects payloads that are invalid for the subscriber's codec (invalid UTF-8, truncated bincode): they must surface as Err, valid ones as the value.",
             "Pure at the function level; decided as traffic (DESIGN.md §0). 1 MiB payloads only in the thorough tier.",
